@@ -45,8 +45,16 @@ func loadKnown() {
 	}
 }
 
+// FilterKnown enables the "keep searching behind an open known finding"
+// behaviour. It is switched on by the generated search only; replays and the
+// corpus always report what they see.
+var FilterKnown = false
+
 // matchKnown returns the id of the open known finding whose signature matches v.
 func matchKnown(prop string, v *harness.Violation) string {
+	if !FilterKnown {
+		return ""
+	}
 	knownOnce.Do(loadKnown)
 	for _, k := range knownList {
 		if k.Property != prop {
